@@ -40,6 +40,13 @@ Parameter-coverage additions (audit of every sampler x every parameter):
   object: frequencies of all runs*m rows within 7 sigmas AND rows 0 / 1 of a call coincide (first index, whole row) with
   the frequency sum p0^2 / sum p^2 of independent draws; C14.sample_square.unique_first_draw: the m_fact*m candidate rows
   of unique=True (m_fact*m <= n[0]) are drawn with replacement from the exact marginal.
+* rank-deficient unfoldings with a prescribed order of the dependent interface rows / columns (gap closure; `_deficient`, 16
+  forms): untruncated block sums A + B + B in every block order (ABB, BAB, BBA, AA, ABAB, only the last cores repeated), a
+  proportional / dependent / zero row or column at a lower or a higher position of one core, zero-padded bonds (zeros first / in
+  the middle / last), duplicated bonds; integer cores, exact dense reference.  C14.sample_square.chain_deficient /
+  C14.sample.chain_deficient: the scripted audit of every multi-index (and 60 real draws); C14.sample_square.gof_deficient /
+  C14.sample.gof_deficient: the protocol-independent frequency test.  The last mode is wide enough (n_d >= r + 2) for the
+  triangular factor of the last unfolding to be square, shapes up to 120 entries.
 # DOUBTFUL (not yielded): sample_tt(n) with n given as floats (the docstring allows "int/float") raises TypeError
 # (range(n[i])), e.g. sample_tt(np.array([3., 4.]), 2, seed=1); sample_lhs / sample_rand accept float n.
 # float_cf of sample_square returns non-integer "indices" by design and is outside the statement.
@@ -59,7 +66,9 @@ BOUNDS = ('chain audits: 14 shapes with <= 24 entries (quick) / 24 shapes with <
           'LHS: mode sizes 1..9, m = 1..29, and n in {300, 33000, 70000} at selected m; sample_tt: 11 shapes x r in 1..5; '
           'sample_square unique: m up to the number of non-zero entries, m_fact in {1,2,5}, max_rep in {-1,0,1,100}; '
           'few rows per call (2 <= m <= n[0], n[0] = 4 .. 300): replace flag of every recorded draw, 250 / 3000 calls x m rows '
-          'goodness of fit + pairwise independence of rows 0 / 1, unique=True candidates with m_fact*m <= n[0]')
+          'goodness of fit + pairwise independence of rows 0 / 1, unique=True candidates with m_fact*m <= n[0]; '
+          'rank-deficient unfoldings: 16 forms (block sums in 6 orders, dependent / zero rows and columns low / high, zero padding x 3, '
+          'duplicated bonds) x 6 shapes with 15 .. 60 entries (thorough 11, <= 120) x ranks 1..3, scripted + real draws, gof 2500 / 20000 draws')
 
 SHAPES_Q = [[2, 3], [3, 2], [4, 6], [1, 5], [5, 1], [2, 2, 2], [3, 2, 2], [2, 3, 4], [1, 3, 2], [3, 1, 4], [2, 2, 2, 3],
             [2, 1, 2, 2], [2, 2, 2, 2], [3, 2, 1, 4]]
@@ -115,6 +124,107 @@ def _tensor(n, r, seed, square):
     W = np.vectorize(lambda v: v * v if square else v, otypes=[object])(D)
     total = int(W.sum())
     return Y, W.astype(float), total
+
+
+DEF_FORMS = ('ABB', 'BAB', 'BBA', 'AA', 'ABAB', 'ABB_last', 'row_lo', 'row_hi', 'row_mix', 'col_lo', 'col_hi', 'zero_row',
+             'pad_first', 'pad_mid', 'pad_last', 'dup_bond')
+
+
+def _block_sum(parts):
+    """sum of TT-tensors WITHOUT truncation (block cores, plain NumPy): the cores of the summands stand in the given order"""
+    d = len(parts[0])
+    Z = []
+    for k in range(d):
+        Gs = [Y[k] for Y in parts]
+        if k == 0:
+            Z.append(np.concatenate(Gs, axis=2))
+        elif k == d - 1:
+            Z.append(np.concatenate(Gs, axis=0))
+        else:
+            C = np.zeros((sum(G.shape[0] for G in Gs), Gs[0].shape[1], sum(G.shape[2] for G in Gs)))
+            a = b = 0
+            for G in Gs:
+                C[a:a + G.shape[0], :, b:b + G.shape[2]] = G
+                a, b = a + G.shape[0], b + G.shape[2]
+            Z.append(C)
+    return Z
+
+
+def _deficient(n, r, seed, square, form):
+    """Integer TT-tensor whose unfoldings are RANK-DEFICIENT with a prescribed order of the dependent interface rows /
+    columns (the representation carries directions that contribute nothing, and an orthogonalisation meets exactly
+    singular triangular factors):
+      ABB / BAB / BBA / AA / ABAB  untruncated sums of a rank-r tensor A and a rank-1 tensor B in that block order (every
+                        core of the sum has dependent rows AND columns; in ABB the dependent row has independent rows before it)
+      ABB_last          A + B + B' where B' differs from B only in the first core (only the LAST cores repeat)
+      row_lo / row_hi   one core (position seed-dependent, k >= 1) gets row i := c * row j with i < j / i > j
+      row_mix           row 1 := a * row 0 + b * row 2 (r >= 3) - a dependent row in the middle
+      col_lo / col_hi   the same for the columns of a core k <= d - 2
+      zero_row          an interface row (not the last one) of a core is zero, the matching column of the core before is not
+      pad_first / _mid / _last   every bond of A embedded in a bond larger by 2, the zero rows / columns standing first / in
+                        the middle / last
+      dup_bond          every bond carries each direction twice (cores [G, G] / [G; G] halves)
+    Returns (Y, W float weights, exact integer total) like _tensor."""
+    d = len(n)
+    g = gen.rng('C14.def', n, r, seed, form)
+    for retry in range(8):
+        A = gen.tt(n, r, seed + retry, 'int' if square else 'pos')
+        B = gen.tt(n, 1, seed + 100 + retry, 'int' if square else 'pos')
+        if not square:
+            A, B = [G + (G.sum() == 0) for G in A], [G + 1.0 for G in B]
+        if form in ('ABB', 'BAB', 'BBA', 'AA', 'ABAB'):
+            Y = _block_sum([{'A': A, 'B': B}[c] for c in form])
+        elif form == 'ABB_last':
+            B2 = [G.copy() for G in B]
+            B2[0] = B2[0][:, ::-1, :] * 2.0
+            Y = _block_sum([A, B, B2])
+        elif form in ('row_lo', 'row_hi', 'row_mix', 'zero_row'):
+            Y = [G.copy() for G in A]
+            ks = [k for k in range(1, d) if Y[k].shape[0] >= (3 if form == 'row_mix' else 2)]
+            if not ks:
+                return None, None, 0
+            k = ks[int(g.integers(len(ks)))]
+            rk = Y[k].shape[0]
+            if form == 'row_mix':
+                Y[k][1] = 2.0 * Y[k][0] + (-1.0 if square else 1.0) * Y[k][2]
+            elif form == 'zero_row':
+                Y[k][int(g.integers(rk - 1))] = 0.0
+            else:
+                i, j = sorted(int(x) for x in g.choice(rk, size=2, replace=False))
+                if form == 'row_hi':
+                    i, j = j, i
+                Y[k][i] = float(g.choice([-2, -1, 2, 3] if square else [1, 2, 3])) * Y[k][j]
+        elif form in ('col_lo', 'col_hi'):
+            Y = [G.copy() for G in A]
+            ks = [k for k in range(d - 1) if Y[k].shape[2] >= 2]
+            if not ks:
+                return None, None, 0
+            k = ks[int(g.integers(len(ks)))]
+            i, j = sorted(int(x) for x in g.choice(Y[k].shape[2], size=2, replace=False))
+            if form == 'col_hi':
+                i, j = j, i
+            Y[k][:, :, i] = float(g.choice([-2, -1, 2, 3] if square else [1, 2, 3])) * Y[k][:, :, j]
+        elif form in ('pad_first', 'pad_mid', 'pad_last'):
+            Y = []
+            for k, G in enumerate(A):
+                a, nk, b = G.shape
+                pa = [0] * a if k == 0 else {'pad_first': [2 + x for x in range(a)], 'pad_last': list(range(a)),
+                                             'pad_mid': [x if x < (a + 1) // 2 else x + 2 for x in range(a)]}[form]
+                pb = [0] * b if k == d - 1 else {'pad_first': [2 + x for x in range(b)], 'pad_last': list(range(b)),
+                                                 'pad_mid': [x if x < (b + 1) // 2 else x + 2 for x in range(b)]}[form]
+                H = np.zeros((a + (2 if k > 0 else 0), nk, b + (2 if k < d - 1 else 0)))
+                H[np.ix_(pa, range(nk), pb)] = G
+                Y.append(H)
+        elif form == 'dup_bond':
+            Y = [np.concatenate([G, G], axis=2) if k < d - 1 else G for k, G in
+                 enumerate([np.concatenate([G, -2.0 * G] if square else [G, G], axis=0) if k > 0 else G for k, G in enumerate(A)])]
+        else:
+            raise ValueError(form)
+        D = gen.dense_exact(Y)
+        if any(v != 0 for v in D.reshape(-1)) and (square or all(v >= 0 for v in D.reshape(-1))):
+            break
+    W = np.vectorize(lambda v: v * v if square else v, otypes=[object])(D)
+    return Y, W.astype(float), int(W.sum())
 
 
 def _call(fn, Y, m, g, unsert):
@@ -190,9 +300,14 @@ def _kron_square(X):
     return [np.einsum('aib,cid->acibd', G, G).reshape(G.shape[0] ** 2, G.shape[1], G.shape[2] ** 2) for G in X]
 
 
-def _run_chain(fn, n, r, seed, scripted, m, unsert, exp=0, signed=False):
+def _run_chain(fn, n, r, seed, scripted, m, unsert, exp=0, signed=False, form=None):
     square = fn == 'sample_square'
-    Y, W, total = _tensor(n, r, seed, square or signed)
+    if form is not None:
+        Y, W, total = _deficient(n, r, seed, square, form)
+        if Y is None:
+            return SKIP(f'no core with enough rows / columns for the form {form}')
+    else:
+        Y, W, total = _tensor(n, r, seed, square or signed)
     if total == 0:
         return SKIP('zero tensor defines no distribution')
     if signed:
@@ -287,6 +402,23 @@ def sample_square_chain_random(n, r, seed, m):
     return _run_chain('sample_square', n, r, seed, False, m, None)
 
 
+@clause('C14.sample_square.chain_deficient', funcs=('sample.sample_square', 'sample._sample_core_first', 'transformation.orthogonalize',
+                                                     'transformation.orthogonalize_right'))
+def sample_square_chain_deficient(n, r, seed, form, scripted):
+    """sample_square(unique=False) on tensors with RANK-DEFICIENT unfoldings in a prescribed row / column order (`_deficient`:
+    untruncated sums A + B + B in every block order, proportional / dependent / zero rows and columns at a lower or higher
+    position, zero-padded and duplicated bonds): the audited chain of conditionals multiplies to entry^2 / total for every
+    multi-index (scripted) resp. for 60 real draws."""
+    return _run_chain('sample_square', n, r, seed, bool(scripted), 60, None, form=form)
+
+
+@clause('C14.sample.chain_deficient', funcs=('sample.sample',))
+def sample_chain_deficient(n, r, seed, form, scripted):
+    """sample on NON-NEGATIVE tensors of the same rank-deficient forms (non-negative cores): conditionals == dense
+    conditionals, product == entry / total for every multi-index."""
+    return _run_chain('sample', n, r, seed, bool(scripted), 60, 0.0, form=form)
+
+
 @clause('C14.sample_square.runs', funcs=('sample.sample_square',))
 def sample_square_runs(n, r, seed, unique, m):
     """sample_square returns (no exception) for a generic Gaussian tensor.  Known defect of the pinned tree: a
@@ -347,9 +479,11 @@ def sample_square_unique_limits(n, r, seed, m_fact, max_rep, over, genobj):
     return check(rows == want, f'rows {sorted(rows)} are not the {nz} entries of non-zero weight')
 
 
-def _gof(fn, n, r, seed, m):
+def _gof(fn, n, r, seed, m, form=None):
     square = fn == 'sample_square'
-    Y, W, total = _tensor(n, r, seed, square)
+    Y, W, total = _tensor(n, r, seed, square) if form is None else _deficient(n, r, seed, square, form)
+    if Y is None:
+        return SKIP(f'no core with enough rows / columns for the form {form}')
     if total == 0:
         return SKIP('zero tensor')
     try:
@@ -381,6 +515,19 @@ def sample_gof(n, r, seed, m):
 def sample_square_gof(n, r, seed, m):
     """The same fallback for sample_square(unique=False) and squared entries."""
     return _gof('sample_square', n, r, seed, m)
+
+
+@clause('C14.sample_square.gof_deficient', funcs=('sample.sample_square', 'transformation.orthogonalize'))
+def sample_square_gof_deficient(n, r, seed, m, form):
+    """Protocol-independent fallback for the rank-deficient forms: frequencies of m real draws of sample_square(unique=False)
+    within 7 binomial sigmas of entry^2 / total for every multi-index."""
+    return _gof('sample_square', n, r, seed, m, form)
+
+
+@clause('C14.sample.gof_deficient', funcs=('sample.sample',))
+def sample_gof_deficient(n, r, seed, m, form):
+    """The same for sample on the non-negative rank-deficient forms."""
+    return _gof('sample', n, r, seed, m, form)
 
 
 def _tensor_skewed(n, r, seed, square):
@@ -737,6 +884,33 @@ def cases(tier, seed):
             for rep in range(2 if big else 1):
                 yield 'C14.sample_tt.layout', dict(n=n, r=r, seed=rs(), genobj=bool((r + rep) % 2),
                                                    as_array=bool(r % 2))
+    # ---- gap closure: rank-deficient unfoldings with a prescribed order of the dependent rows / columns ----------------
+    gd = gen.rng('C14.deficient', seed)           # own stream: the seeds of the older cases stay what they were
+
+    def ds():
+        return int(gd.integers(1 << 30))
+
+    dshapes = [[3, 5], [4, 6], [2, 3, 5], [3, 2, 6], [2, 2, 2, 6], [3, 4, 5]] + ([[4, 5, 6], [6, 7], [2, 2, 3, 2, 5], [5, 1, 6], [3, 3, 3, 4]] if big else [])
+    k = 0
+    for n in dshapes:
+        for form in DEF_FORMS:
+            for r in ((1, 2, 3) if big else (3 if form == 'row_mix' else 1 + k % 2 if form[0] in 'AB' else 2 + k % 2,)):
+                k += 1
+                if r < 2 and form.startswith(('row', 'col', 'zero_row')) or r < 3 and form == 'row_mix':
+                    continue
+                yield 'C14.sample_square.chain_deficient', dict(n=n, r=r, seed=ds(), form=form, scripted=1)
+                if big or k % 4 == 0:
+                    yield 'C14.sample_square.chain_deficient', dict(n=n, r=r, seed=ds(), form=form, scripted=0)
+                if big or k % 3 == 0:
+                    yield 'C14.sample.chain_deficient', dict(n=n, r=r, seed=ds(), form=form, scripted=1)
+                if big and k % 2:
+                    yield 'C14.sample.chain_deficient', dict(n=n, r=r, seed=ds(), form=form, scripted=0)
+    for n, r, forms in (([3, 4, 5], 2, ('ABB', 'row_lo')),) + \
+            ((([4, 5, 6], 2, DEF_FORMS), ([2, 3, 5], 3, DEF_FORMS)) if big else ()):
+        for form in forms:
+            yield 'C14.sample_square.gof_deficient', dict(n=n, r=r, seed=ds(), m=20000 if big else 2500, form=form)
+            if big or form == 'ABB':
+                yield 'C14.sample.gof_deficient', dict(n=n, r=r, seed=ds(), m=20000 if big else 2500, form=form)
     # ---- few rows per call: 2 <= rows <= size of the first mode (the draws of one call must still be independent) ----
     for n in ([6, 3, 2], [8, 2], [5, 2, 2], [300, 2]) + (([4, 6], [7, 1, 3], [12, 3], [9, 2, 2, 2], [40, 2]) if big else ()):
         for r in ((1, 2, 3) if big else (1, 2)):
